@@ -560,7 +560,7 @@ pub fn run(args: &Args) -> i32 {
     let mut rep = Report::new(args, "model_checking");
     let f3_open = rep.is_open("F3");
     let depth = std::env::var("VERIF_DEPTH").ok().and_then(|s| s.parse().ok()).unwrap_or(args.tier.pick(3, 5));
-    let mut jobs: Vec<Config> = configs(args.tier).into_iter().map(|s| Config { stacks: vec![s], depth, f3_open, max_spans: 2 }).collect();
+    let mut jobs: Vec<Config> = configs(args.tier).into_iter().map(|s| Config { stacks: vec![s], depth, f3_open, max_spans: 3 }).collect();
     // two different stacks live on two threads
     let all = configs(args.tier);
     let step = (all.len() / args.tier.pick(24, 200)).max(1);
